@@ -59,19 +59,34 @@ def run(R):
                 c.check(ok, f, n.ast, 'exitstatus is read only after child.close()', witness=g.describe_path(p) if p else None, tag='close-first')
     with R.clause('D6', 'CONFIG', floor=3, desc='run() hands timeout / logfile / cwd / env / extra keywords to the child it creates') as c:
         sps = cfg_nodes_with_call(f, lambda k: callee_last(k) == 'spawn')
-        c.need(len(sps) == 2, 'run(): expected two spawn(...) calls (with and without explicit timeout)')
-        tt = [t for t in g.nodes if t.kind == 'test' and compare_parts(t.ast) and is_name(compare_parts(t.ast)[0], 'timeout') and is_const(compare_parts(t.ast)[2], -1)]
-        c.need(len(tt) == 1, 'run(): test of timeout against -1 not found')
-        m1_edge = 'true' if isinstance(compare_parts(tt[0].ast)[1], ast.Eq) else ('false' if isinstance(compare_parts(tt[0].ast)[1], ast.NotEq) else None)
-        c.need(m1_edge is not None, 'run(): timeout/-1 test not understood')
-        for n, k in sps:
-            kws = dict((kw.arg, norm(kw.value)) for kw in k.keywords if kw.arg)
-            inm1 = n in guard_region(g, tt[0], m1_edge)
-            okk = kws.get('logfile') == 'logfile' and kws.get('cwd') == 'cwd' and kws.get('env') == 'env' and any(kw.arg is None for kw in k.keywords) \
-                and k.args and is_name(k.args[0], 'command')
-            okt = ('timeout' not in kws) if inm1 else (kws.get('timeout') == 'timeout')
-            c.check(okk and okt, f, k, 'the child is created for the given command with %s and the caller\'s logfile / cwd / env / keywords'
-                    % ('the spawn default timeout (timeout == -1)' if inm1 else 'timeout=timeout'), witness=norm(k)[:120], kind='ast', tag='spawn-args:%s' % ('default' if inm1 else 'explicit'))
+        c.need(1 <= len(sps) <= 2, 'run(): spawn(...) call not found')
+        M1 = atom_key(ast.parse('timeout == -1', mode='eval').body)[0]
+        # the keywords the child is created with, for timeout == -1 and for an explicit timeout: explicit keywords of the call plus the
+        # contents of a **dict built before it (one call or two, literal or incremental: the same to this rule)
+        for is_m1 in (True, False):
+            seen_ = []
+            for n, k in sps:
+                if (M1, not is_m1) in conditions(g, n):
+                    continue                    # this call site is not used in this scenario
+                kws = dict((kw.arg, norm(kw.value)) for kw in k.keywords if kw.arg)
+                stars = [kw.value for kw in k.keywords if kw.arg is None]
+                variants = [dict(kws)]
+                for sv in stars:
+                    if isinstance(sv, ast.Name) and sv.id != 'kwargs':
+                        outs = dict_contents_at(g, n, sv.id, {M1: is_m1})
+                        c.need(outs, 'run(): the contents of **%s could not be determined' % sv.id)
+                        variants = [dict(list(v_.items()) + list(o_.items())) for v_ in variants for o_ in outs]
+                    else:
+                        variants = [dict(list(v_.items()) + [('**', norm(sv))]) for v_ in variants]
+                for v_ in variants:
+                    okk = v_.get('logfile') == 'logfile' and v_.get('cwd') == 'cwd' and v_.get('env') == 'env' and v_.get('**') == 'kwargs' \
+                        and v_.get('maxread') == '2000' and k.args and is_name(k.args[0], 'command')
+                    okt = ('timeout' not in v_) if is_m1 else (v_.get('timeout') == 'timeout')
+                    seen_.append(v_)
+                    c.check(okk and okt, f, k, 'the child is created for the given command with %s and the caller\'s logfile / cwd / env / keywords'
+                            % ('the spawn default timeout (timeout == -1)' if is_m1 else 'timeout=timeout'), witness=str(sorted(v_.items()))[:160], kind='alg',
+                            tag='spawn-args:%s' % ('default' if is_m1 else 'explicit'))
+            c.need(seen_, 'run(): no spawn(...) call is reachable for timeout %s -1' % ('==' if is_m1 else '!='))
         c.check(all(isinstance(n.ast, ast.Assign) and 'child' in assigned_names(n.ast) for n, k in sps), f, sps[0][1], 'both forms bind the same child variable', kind='ast', tag='child-bound')
     with R.clause('D7', 'STOP', floor=1, desc='an EOF outcome ends the loop even when EOF is one of the events') as c:
         check_eof_stops(c, f, loop)
